@@ -1872,6 +1872,12 @@ def fixtime(
     # told of "good" time steps (tp: turning points):
     tnew, tp = _mk_initial_tnew(told, sr, dt, difft)
 
+    # if want new time to exactly hit base (if base were in range):
+    if base is not None:
+        t0 = tnew[0]
+        t1 = base - t0 - round((base - t0) * sr) / sr
+        tnew += t1
+
     # build a best-fit index by finding closest new time (no
     # interpolation)
     if hold_previous_value:
@@ -1886,12 +1892,6 @@ def fixtime(
 
     # fill in new data vector with closest old data:
     newdata = olddata[index]
-
-    # if want new time to exactly hit base (if base were in range):
-    if base is not None:
-        t0 = tnew[0]
-        t1 = base - t0 - round((base - t0) * sr) / sr
-        tnew += t1
     return _return(
         tnew, newdata, alldrops, sr_stats, tp, getall, return_ndarray, despike_info
     )
